@@ -34,10 +34,13 @@ type c14Op struct {
 	Ref      int    `json:"replay_of,omitempty"`            // index of an earlier authenticate op
 	Garbage  []byte `json:"garbage,omitempty"`
 	ClientCh uint64 `json:"client_challenge,omitempty"`
+	FlagsSet   uint32 `json:"flags_set,omitempty"`   // negotiate flags of the authenticate message switched on (key exchange, sign, seal, ...)
+	FlagsClear uint32 `json:"flags_clear,omitempty"` // ... and off (128/56-bit, extended session security)
 	Layout   string `json:"message_layout,omitempty"` // MS-NLMP leaves version and MIC optional: "" both present, noversion, short, nomic
 }
 
 type c14Case struct {
+	Naming string  `json:"session_names,omitempty"` // how the four sessions are named: "" = peers differing in the address, port = same address, different ports, v6port = the same for an IPv6 peer, plain = free-form names
 	DB  []c14User `json:"users"`
 	Ops []c14Op   `json:"ops"`
 }
@@ -47,6 +50,7 @@ var c14Passwords = []string{"", "pw-a", "pw-b", "Pässwörd-ü", "pw-a", "correc
 
 func genC14(t *rapid.T) c14Case {
 	var c c14Case
+	c.Naming = rapid.SampledFrom([]string{"", "port", "port", "v6port", "plain"}).Draw(t, "naming")
 	for i, n := 0, rapid.IntRange(1, 5).Draw(t, "nusers"); i < n; i++ {
 		c.DB = append(c.DB, c14User{rapid.SampledFrom(c14Names[:8]).Draw(t, "uname"), rapid.SampledFrom(c14Passwords).Draw(t, "upass")})
 	}
@@ -89,6 +93,18 @@ func genC14(t *rapid.T) c14Case {
 			}
 			op.ClientCh = rapid.Uint64().Draw(t, "clientChallenge")
 			op.Layout = rapid.SampledFrom([]string{"", "", "", "noversion", "short", "nomic"}).Draw(t, "layout")
+			if rapid.IntRange(0, 5).Draw(t, "oddFlags") == 0 {
+				for _, f := range []uint32{0x40000000, 0x10, 0x20, 0x00000002, 0x00000004} {
+					if rapid.Bool().Draw(t, "set") {
+						op.FlagsSet |= f
+					}
+				}
+				for _, f := range []uint32{0x20000000, 0x80000000, 0x00080000, 0x00000200, 0x00000001} {
+					if rapid.Bool().Draw(t, "clear") {
+						op.FlagsClear |= f
+					}
+				}
+			}
 			// follow-up of the previous attempt in the same session: same session and domain, another named user,
 			// proof computed with the previous attempt's user (whose key a careless verifier may still hold)
 			if len(c.Ops) > 0 && c.Ops[len(c.Ops)-1].Op == "authenticate" && rapid.IntRange(0, 2).Draw(t, "followUp") == 0 {
@@ -123,6 +139,7 @@ type c14Sent struct {
 	msg              string
 	claimed, domain  string
 	proof, blob      []byte
+	oddFlags         bool
 }
 
 func runC14(c c14Case) *Violation {
@@ -146,7 +163,16 @@ func runC14(c c14Case) *Violation {
 				pv = viol("c14/panic", "the verifier panicked: %v", p)
 			}
 		}()
-		r, err = svc.Authenticate(&auth.NtlmRequest{Session: fmt.Sprintf("10.0.0.%d:5000", s), NtlmMessage: msg})
+		name := fmt.Sprintf("10.0.0.%d:5000", s)
+		switch c.Naming {
+		case "port":
+			name = fmt.Sprintf("192.0.2.7:%d", 40001+s)
+		case "v6port":
+			name = fmt.Sprintf("[2001:db8::7]:%d", 50001+s)
+		case "plain":
+			name = []string{"X", "x", "session two", "3"}[s] // an empty session name is refused by the service
+		}
+		r, err = svc.Authenticate(&auth.NtlmRequest{Session: name, NtlmMessage: msg})
 		return
 	}
 	var sent []c14Sent
@@ -185,6 +211,9 @@ func runC14(c c14Case) *Violation {
 				if op.ChalOf == -3 {
 					src = &ntlmx.Challenge{ServerChallenge: []byte{}, TargetInfo: []byte{0, 0, 0, 0}}
 				}
+				if src == nil && op.ChalOf == -1 && len(s.earlier) > 0 {
+					src = s.earlier[len(s.earlier)-1] // the exchange is over: the challenge it ended with is the best a client can still present
+				}
 				if src == nil {
 					src = &ntlmx.Challenge{ServerChallenge: []byte{1, 2, 3, 4, 5, 6, 7, 8}, TargetInfo: []byte{0, 0, 0, 0}}
 				}
@@ -192,8 +221,8 @@ func runC14(c c14Case) *Violation {
 				binary.LittleEndian.PutUint64(cc, op.ClientCh)
 				msg, blob, proof := ntlmx.Authenticate(ntlmx.AuthSpec{User: op.Claimed, Domain: op.Domain, Workstation: "WS",
 					Key: ntlmx.NTOWFv2(op.KeyPass, op.KeyUser, op.Domain), ServerChallenge: src.ServerChallenge, TargetInfo: src.TargetInfo,
-					Timestamp: []byte{0, 0x80, 0x3e, 0xd5, 0xde, 0xb1, 0x9d, 0x01}, ClientChallenge: cc, Layout: op.Layout})
-				m = c14Sent{msg: base64.StdEncoding.EncodeToString(msg), claimed: op.Claimed, domain: op.Domain, proof: proof, blob: blob}
+					Timestamp: []byte{0, 0x80, 0x3e, 0xd5, 0xde, 0xb1, 0x9d, 0x01}, ClientChallenge: cc, Layout: op.Layout, FlagsSet: op.FlagsSet, FlagsClear: op.FlagsClear})
+				m = c14Sent{msg: base64.StdEncoding.EncodeToString(msg), claimed: op.Claimed, domain: op.Domain, proof: proof, blob: blob, oddFlags: op.FlagsSet != 0 || op.FlagsClear != 0}
 				sent = append(sent, m)
 			}
 			r, err, pv := call(op.Session, m.msg)
@@ -215,11 +244,15 @@ func runC14(c c14Case) *Violation {
 				if r.Username != m.claimed {
 					return viol("c14/wrong-username", "authenticated, but the returned user name differs from the configured/named one: %s", desc)
 				}
-			} else if justified && s.fresh {
+			} else if justified && s.fresh && !m.oddFlags {
+				// (with unusual negotiate flags the outcome of a correct proof is left open: the library underneath does
+				// not support every combination; what such a message must never do is authenticate somebody else or keep
+				// the exchange alive - checked by the other clauses)
 				return viol("c14/valid-exchange-refused", "a client that knows the password and follows the exchange was not authenticated: %s", desc)
 			}
 			s.fresh = false
-			if err != nil || (r != nil && r.Authenticated) {
+			if (err != nil || (r != nil && r.Authenticated)) && s.chal != nil {
+				s.earlier = append(s.earlier, s.chal)
 				s.chal = nil // the exchange is over
 			}
 		case "garbage", "badbase64":
@@ -227,16 +260,15 @@ func runC14(c c14Case) *Violation {
 			if op.Op == "badbase64" {
 				msg = "!!!not*base64!!!"
 			}
-			r, err, pv := call(op.Session, msg)
+			r, _, pv := call(op.Session, msg)
 			if pv != nil {
 				return pv
 			}
 			if r != nil && r.Authenticated {
 				return viol("c14/authenticated-garbage", "op %d: an undecodable message was authenticated as %q", i, r.Username)
 			}
-			if err != nil {
-				s.chal = nil
-			}
+			// whether an undecodable message ends the exchange is left open: the challenge may or may not be outstanding
+			// afterwards (fresh = false: a correct proof may now be refused, but may also still be accepted)
 			s.fresh = false
 		}
 	}
